@@ -78,17 +78,18 @@ def Prim.wt (p : Prim) (n : Nat) : Bool :=
   | .unit => false
 
 mutual
-/-- `wt T v`: the value `v` inhabits the type `T`. -/
+/-- `wt T v`: the value `v` inhabits the type `T`. Sequences obey the invariant of `Vec`
+    (at most `isize::MAX` bytes, hence fewer than 2^63 elements or bytes). -/
 def Ty.wt : Ty → Val → Bool
   | .prim .unit, .unit => true
   | .prim p, .bits n => p.wt n
   | .phantom _, .unit => true
-  | .string, .str b => validUtf8 b && b.length < 2^64
-  | .boxStr, .str b => validUtf8 b && b.length < 2^64
-  | .vec t, .seq vs => Ty.wtList t vs && vs.length < 2^64
-  | .boxSlice t, .seq vs => Ty.wtList t vs && vs.length < 2^64
-  | .sliceRef t, .seq vs => Ty.wtList t vs && vs.length < 2^64
-  | .serIter t, .seq vs => Ty.wtList t vs && vs.length < 2^64
+  | .string, .str b => validUtf8 b && b.length < 2^63
+  | .boxStr, .str b => validUtf8 b && b.length < 2^63
+  | .vec t, .seq vs => Ty.wtList t vs && vs.length < 2^63 && vs.length * t.sizeOf < 2^63
+  | .boxSlice t, .seq vs => Ty.wtList t vs && vs.length < 2^63 && vs.length * t.sizeOf < 2^63
+  | .sliceRef t, .seq vs => Ty.wtList t vs && vs.length < 2^63 && vs.length * t.sizeOf < 2^63
+  | .serIter t, .seq vs => Ty.wtList t vs && vs.length < 2^63 && vs.length * t.sizeOf < 2^63
   | .array t n, .seq vs => Ty.wtList t vs && vs.length == n
   | .tuple t n, .seq vs => Ty.wtList t vs && vs.length == n
   | .option _, .variant 0 [] => true
